@@ -91,7 +91,7 @@ def usermaps(draw):
         role = draw(st.sampled_from(["rom", "rom", "rommirror", "rommirror", "ram"]))
         length = draw(st.sampled_from([1, 1, 2, 3, 8, 16, 32, 48]))
         gap = draw(st.integers(0, 12))
-        win = draw(st.sampled_from(["hi32", "full64"]))
+        win = draw(st.sampled_from(["hi32", "hi32", "full64", "full64", "half64"]))
         if role == "rommirror":
             need = 2 * length + gap
         else:
@@ -157,7 +157,7 @@ def strategy(tier):
 def _map_directives(specs) -> str:
     lines = []
     for s in specs:
-        lo, hi, mask = (0x8000, 0xFFFF, 0x8000) if s["win"] == "hi32" else (0, 0xFFFF, 0x10000)
+        lo, hi, mask = busmodel.WINDOWS[s["win"]]
         line = (f".map identifier={s['id']} bank_range=0x{s['first']:02x}, 0x{s['last']:02x} "
                 f"addr_range=0x{lo:04x}, 0x{hi:04x} mask=0x{mask:x}")
         if s.get("ram"):
@@ -173,7 +173,7 @@ def _install_api(specs):
 
     bus = Bus("user")
     for s in specs:
-        lo, hi, mask = (0x8000, 0xFFFF, 0x8000) if s["win"] == "hi32" else (0, 0xFFFF, 0x10000)
+        lo, hi, mask = busmodel.WINDOWS[s["win"]]
         bus.map(str(s["id"]), (s["first"], s["last"]), (lo, hi), mask, writeable=bool(s.get("ram")),
                 mirror_bank_range=tuple(s["mirror"]) if s.get("mirror") else None)
     return bus
@@ -230,6 +230,25 @@ def _check_adv(out, model, bus, rom_label, a, m, n, want_sub):
     else:
         if phys != (None, None):
             out.bad(f"adv:{rom_label}:ram:offset", want_sub, f"RAM address got offsets {phys}")
+
+
+def _check_lead(out, model, rom, map_src, lead, a, m, want_sub):
+    """program `[.map ...] <lead>A ; m filler bytes ; label`: the label is A advanced by m"""
+    src = (map_src or "") + f"{lead}0x{a:06x}\n"
+    files = None
+    if m > 0:
+        src += ".incbin 'pad.bin'\n"
+        files = {"pad.bin": {"rep": [0x5A, m]}}
+    src += "probe_lbl:\n.db 0x42\n"
+    res = driver.assemble_mem(src, rom=rom or "low", files=files)
+    tag = f"{'umap' if map_src else rom}:lead{'-org' if lead == '*=' else '-reloc'}"
+    if not res.accepted:
+        out.bad(f"{tag}:rejected", want_sub, f"rejected: {res['status']} {res['exc']} {res.failure_text[:200]}\n{src[:400]}")
+        return
+    got = dict(res["labels"]).get("probe_lbl")
+    exp = model.advance(a, m)
+    if got != exp:
+        out.bad(f"{tag}:label-after-advance", want_sub, f"label after {lead}{a:#08x} + {m:#x} bytes = {got if got is None else hex(got)}, expected {exp:#08x}\n{src[:400]}")
 
 
 def _incs(model, a, seed):
@@ -312,6 +331,18 @@ def run_case(case) -> Outcome:
                 ev += 1
                 if m + n > r.win_hi - off or off - r.win_lo < 2 or r.win_hi - off < 2 or r.mirror:
                     nt += 1
+        # the same law through a program: the position set by a leading `*=` or a leading `@=` (no *= before it),
+        # m filler bytes, then a label
+        for off in [o for o in offs if r.win_lo <= o <= r.win_hi][:2]:
+            a = (bank << 16) | off
+            incs = [m for m in _incs(model, a, case["seed"]) if m <= 0x10001 and m + 1 < model.room(a)]
+            m = incs[(off + case["seed"]) % len(incs)] if incs else 0
+            for lead in ("*=", "@="):
+                if lead == "*=" and r.ram:
+                    continue
+                _check_lead(out, model, rom, None, lead, a, m, {"t": "lead1", "rom": rom, "lead": lead, "a": a, "m": m})
+                ev += 1
+                nt += 1
         out.evals, out.nontrivial = ev, nt
         out.labels = [f"adv:{rom}:{r.name}"]
         if bank in (0x00, 0x7E, 0x85, 0xC1):
@@ -319,6 +350,10 @@ def run_case(case) -> Outcome:
             if model.room(a) > 3 and not out.violations:
                 out.sample = {"advance": f"{rom} {a:#08x}+3", "real": f"{(bus.get_address(a) + 3).logical_value:#08x}",
                               "model": f"{model.advance(a, 3):#08x}"}
+        return out
+    if t == "lead1":
+        _check_lead(out, model_l := busmodel.builtin(case["rom"]), case["rom"], None, case["lead"], case["a"], case["m"], case)
+        out.evals, out.nontrivial = 1, 1
         return out
     if t == "adv1":
         _check_adv(out, model, bus, rom, case["a"], case["m"], case["n"], case)
@@ -370,6 +405,7 @@ def _run_umap(case) -> Outcome:
                 out.bad("umap:directive:block-offset", case,
                         f"bytes not at the mapped offset: expected first offset {model.physical(a0):#x}, marker at {exp_off:#x}; "
                         f"got offsets {min(flat):#x}..{max(flat):#x} ({len(flat)} bytes)\n{src}")
+            _check_lead(out, model, None, _map_directives(specs), "@=", a0, m0, case)
             try:
                 gp = program.get_physical_address(a0)
             except Exception as e:
